@@ -291,7 +291,9 @@ def c15(rng, tier, repo):
     D = 4 if tier == 'quick' else 6
     real_stat, real_fstat = os.stat, os.fstat
     kinds = ['-', 'P', 'Z']          # no Manifest, plain, gz only
-    ign_kinds = ['none', 'path', 'ancestor', 'sibling', 'lookalike']
+    # 'owndir': an IGNORE that names a child with the same name as the Manifest's own directory -- harmless, but it matches
+    # the start path as seen from the directory above, so it exposes a check made with a stale Manifest on a level without one
+    ign_kinds = ['none', 'path', 'ancestor', 'sibling', 'lookalike', 'owndir']
     combos = list(itertools.product(kinds, repeat=D))
     if tier == 'quick':
         rng.shuffle(combos)
@@ -325,6 +327,8 @@ def c15(rng, tier, repo):
                                 lines.append('IGNORE zzz')
                             elif ign == 'lookalike' and rel_to_start:
                                 lines.append('IGNORE ' + names[lvl][:-1])
+                            elif ign == 'owndir' and lvl >= 1:
+                                lines.append('IGNORE ' + names[lvl - 1])
                         C.write_manifest(os.path.join(d, 'Manifest' + ('.gz' if kind == 'Z' else '')), lines)
                     # expected: walk up from start; stop *before* a level whose Manifest ignores start; outermost found
                     expected = None
@@ -467,6 +471,21 @@ def c17(rng, tier, repo):
                     viol.append({'what': 'C17 length %d hint %d read schedule %s: wrong %s' % (ln, hint, mode, bad),
                                  'key': 'hash_file:%s' % ('slurp' if hint and hint < 1048576 else 'chunk'), 'props': ['C17']})
         distinct += 1
+        # small request sets (only the byte count, a single algorithm) with every kind of hint
+        if ln in (0, 1, 37, 300, 65537) or (ln < 40 and ln % 7 == 0):
+            for req in (['__size__'], [avail[0]], [avail[-1], '__size__']):
+                for hint in (0, ln, max(0, ln - 1), ln + 1, ln + 100, 4194304):
+                    f = AdversarialReader(data, rng, 'rand')
+                    try:
+                        got = hash_file(f, list(req), _apparent_size=hint)
+                    except BaseException as e:
+                        got = 'EXC:' + type(e).__name__
+                    n += 1
+                    exp = {k: want[k] for k in req}
+                    if got != exp:
+                        viol.append({'what': 'C17 request %r length %d hint %d: got %r' % (req, ln, hint, got if isinstance(got, str) else
+                                                                                           {k: got.get(k) for k in exp if got.get(k) != exp[k]}),
+                                     'key': 'hash_file:small-request', 'props': ['C17']})
     # through a real file and the Manifest-name table
     with C.Scratch() as d:
         for ln in (0, 1, 65536, 1048577):
@@ -539,6 +558,10 @@ def with_watchdog(fn, seconds=20):
     if 'e' in res:
         return 'EXC:' + type(res['e']).__name__
     return res.get('v')
+
+
+class _Done(Exception):
+    pass
 
 
 def c16(rng, tier, repo):
@@ -646,13 +669,26 @@ def c16(rng, tier, repo):
                 if isinstance(pth, (str, bytes, os.PathLike)) and os.path.realpath(os.fspath(pth)) == _vp:
                     return bump(st)
                 return st
-            modes = ['verify', 'update']
+            modes = ['verify', 'update', 'create']
             if not os.path.isdir(vp):
                 # the single-path APIs of the loader, asked about the file itself
                 modes += ['verify_path', 'assert_path_verifies', 'update_entry_for_path']
             for mode in modes:
                 os.stat, os.fstat = fstat_path, fstat
                 try:
+                    if mode == 'create':
+                        # a tree that gets its first Manifest: the reference device is that of the directory
+                        saved = open(os.path.join(root, 'Manifest'), 'rb').read()
+                        os.unlink(os.path.join(root, 'Manifest'))
+                        try:
+                            m = ManifestRecursiveLoader(os.path.join(root, 'Manifest'), hashes=['SHA1'], allow_xdev=False,
+                                                        allow_create=True)
+                            m.update_entries_for_directory('')
+                        finally:
+                            with open(os.path.join(root, 'Manifest'), 'wb') as fh_:
+                                fh_.write(saved)
+                        got = 'ok'
+                        raise _Done()
                     m = ManifestRecursiveLoader(os.path.join(root, 'Manifest'), hashes=['SHA1'], allow_xdev=False)
                     if mode == 'verify':
                         m.assert_directory_verifies('')
@@ -663,6 +699,8 @@ def c16(rng, tier, repo):
                     got = 'ok'
                 except ManifestCrossDevice:
                     got = 'xdev'
+                except _Done:
+                    pass
                 except BaseException as e:
                     got = 'EXC:' + type(e).__name__
                 finally:
